@@ -11,18 +11,17 @@ Definition is_lb (c : N) : bool :=
   (c =? 10) || (c =? 13) || (c =? 11) || (c =? 12) || (c =? 28) || (c =? 29) || (c =? 30)
   || (c =? 133) || (c =? 8232) || (c =? 8233).
 
-Fixpoint splitlines_aux (l : pystr) (cur : pystr) : list pystr :=
+(* after_cr: the previous character was "\r" (which already ended a line), so a "\n" that
+   follows immediately belongs to the same line end *)
+Fixpoint splitlines_aux (l : pystr) (cur : pystr) (after_cr : bool) : list pystr :=
   match l with
   | [] => match cur with [] => [] | _ => [rev cur] end
   | c :: r =>
-      if is_lb c then
-        rev cur :: match r with
-                   | c2 :: r' => if (c =? 13) && (c2 =? 10) then splitlines_aux r' [] else splitlines_aux r []
-                   | [] => splitlines_aux r []
-                   end
-      else splitlines_aux r (c :: cur)
+      if after_cr && (c =? 10) then splitlines_aux r cur false
+      else if is_lb c then rev cur :: splitlines_aux r [] (c =? 13)
+      else splitlines_aux r (c :: cur) false
   end.
-Definition splitlines (s : pystr) : list pystr := splitlines_aux s [].
+Definition splitlines (s : pystr) : list pystr := splitlines_aux s [] false.
 
 (* str.isspace() per character: Unicode White_Space / bidirectional WS,B,S as CPython *)
 Definition is_space (c : N) : bool :=
